@@ -224,6 +224,7 @@ def run(res: Results, idx: Index, tier: str) -> None:
     rule_e(res, idx)
     rule_f(res, idx)
     rule_g(res, idx)
+    rule_h(res, idx)
     from .c03 import inherited_settings
     res.rule("R-C09d", "nested Loop / If / function scopes inherit enable_double_precision from an attribute that exists", floor=1)
     for site, key, status, detail, func, setting in inherited_settings(idx):
@@ -570,3 +571,52 @@ def rule_g(res: Results, idx: Index) -> None:
                 else:
                     res.ok("R-C09g", site, key, "no float attribute of the constructed node derives from a tensor payload", fi.qualname)
     res.analysed["pass_constructed_nodes"] = n
+
+
+# ---------------------------------------------------------------------------------------------- R-C09h
+# operator-mandated float32 operands and values that take no part in the data path's arithmetic — one line of reason each
+FLOAT32_CONSTANT_EXEMPT = {
+    ("jax2onnx/plugins/equinox/eqx/nn/dropout.py", "rate"): "Dropout `ratio` operand: inert in inference mode, never combined with the data tensor",
+    ("jax2onnx/plugins/flax/nnx/dropout.py", "rate"): "Dropout `ratio` operand: inert in inference mode, never combined with the data tensor",
+    ("jax2onnx/plugins/flax/nnx/dot_product_attention.py", "dropout_rate"): "Dropout `ratio` operand: inert in inference mode, never combined with the data tensor",
+    ("jax2onnx/plugins/jax/image/resize.py", "scales_list"): "Upsample / Resize `scales` is tensor(float) by the operator's signature",
+    ("jax2onnx/plugins/jax/random/random_bits.py", "value"): "scale of a random draw (a power of two); the result is an integer sample, not a float64 computation",
+}
+
+
+def rule_h(res: Results, idx: Index) -> None:
+    """A lowering that computes a constant in Python (1 / sqrt(d), 0.46 / (21 / 46)) holds it in double precision; writing it
+    down as `np.asarray(<expr>, dtype=np.float32)` rounds it to 24 bits before the converter's type policy widens it again, so a
+    double-precision export carries a single-precision value (a hidden float32 round trip of a constant).  Inside plugin functions
+    that take the lowering context, a computed (non-literal) value may be made float32 only when the dtype is chosen from the
+    tensor it is combined with — not by the literal `np.float32` — or the site is listed with its reason."""
+    res.rule("R-C09h", "lowerings do not round a Python-computed constant to float32 by a literal dtype (the constant's precision follows the tensor it is combined with)", floor=4)
+    n = 0
+    for m in idx.product_modules():
+        if "/plugins/" not in m.rel or "/examples/" in m.rel:
+            continue
+        for fi in m.funcs.values():
+            a_ = fi.node.args  # type: ignore[attr-defined]
+            if "ctx" not in [x.arg for x in a_.posonlyargs + a_.args + a_.kwonlyargs]:
+                continue
+            for c in walk_no_nested(fi.node):
+                if not isinstance(c, ast.Call) or not c.args:
+                    continue
+                f = src(c.func, 40)
+                lit32 = lambda e: src(e, 30) in ("np.float32", "numpy.float32", "jnp.float32")
+                is32 = (f in ("np.asarray", "np.array", "np.full", "numpy.asarray", "numpy.array") and any(kw.arg == "dtype" and lit32(kw.value) for kw in c.keywords)) or f in ("np.float32", "numpy.float32")
+                if not is32:
+                    continue
+                a = c.args[1] if f == "np.full" and len(c.args) > 1 else c.args[0]
+                if isinstance(a, (ast.Constant, ast.List, ast.Tuple)) or (isinstance(a, ast.UnaryOp) and isinstance(a.operand, ast.Constant)):
+                    continue  # a literal written in the source: what it rounds to is what the author wrote
+                n += 1
+                key = f"{m.rel}::{fi.qualname}::float32-literal-dtype::{src(a, 40)}"
+                site = f"{m.rel}:{c.lineno}"
+                reason = FLOAT32_CONSTANT_EXEMPT.get((m.rel, src(a, 40)))
+                if reason:
+                    res.ok("R-C09h", site, key, f"listed: {reason}", fi.qualname)
+                else:
+                    res.violation("R-C09h", site, key, f"`{src(c, 70)}` rounds a value computed in Python to float32 whatever the export's precision: in a double-precision export the constant is widened back "
+                                  "with 24 significant bits (hidden single-precision round trip)", fi.qualname)
+    res.analysed["float32_literal_dtype_constants"] = n
